@@ -5,6 +5,7 @@ import Yabgp.Driver.Json
 import Yabgp.Driver.Spec
 import Yabgp.Driver.RibOps
 import Yabgp.Driver.MsgLogOps
+import Yabgp.Driver.MpOps
 
 namespace Yabgp.Glue
 open Lean (Json)
@@ -20,6 +21,9 @@ def dispatch (st : DState) (j : Json) : Except String (DState × Json) := do
   if Yabgp.RibGlue.isRibOp op then
     let (r, out) ← Yabgp.RibGlue.dispatchRib st.rib j
     return ({ st with rib := r }, out)
+  if op.startsWith "mp." then
+    let (_, r) ← Yabgp.MpGlue.dispatchMp {} j
+    return (st, r)
   if op.startsWith "msglog." || op == "spec.logaudit" then
     let (ml, r) ← MsgLogOps.dispatchMsgLog st.msglog j
     return ({ st with msglog := ml }, r)
